@@ -435,6 +435,25 @@ func init() {
 		},
 		"(*sync.Pool).Put": extNop,
 
+		// ---- sync/atomic.Value (its implementation uses unsafe): the struct's
+		// single field `v any` holds the stored interface value
+		"(*sync/atomic.Value).Store": func(fr *frame, a []value) value {
+			p := a[0].(*value)
+			st := (*p).(structure)
+			if v, ok := a[1].(iface); !ok || v.t == nil {
+				panic(runtimeErr("sync/atomic: store of nil value into Value"))
+			}
+			st[0] = a[1]
+			return nil
+		},
+		"(*sync/atomic.Value).Load": func(fr *frame, a []value) value {
+			p := a[0].(*value)
+			st := (*p).(structure)
+			if v, ok := st[0].(iface); ok {
+				return v
+			}
+			return iface{}
+		},
 		// ---- sync/atomic on cells
 		"sync/atomic.LoadInt32":   atomicLoad,
 		"sync/atomic.LoadInt64":   atomicLoad,
